@@ -271,6 +271,13 @@ func BinInt(op token.Token, x, y *Int) (res *Int, wrapped bool) {
 			}
 			return newInt(w, signed, bits, 0, min64(x.Hi, c-1), d), false
 		}
+		if xc, xok := x.Const(); xok {
+			if yc, yok := y.Const(); yok && yc != 0 && x.allBitsConst() && y.allBitsConst() {
+				r := NewConstInt(w, signed, xc%yc)
+				r.D = d
+				return r, false
+			}
+		}
 		lo, hi := tlo, thi
 		if y.Lo > 0 {
 			if x.Lo >= 0 {
